@@ -414,7 +414,6 @@ func valueOf(key string, n int) int {
 	return 1000 + n
 }
 
-
 // c17sharedItem: the function hands back the SAME item object from every execution (a backing store that
 // returns what it holds), and two Memoizers with different lifetimes memoize it. Each keeps its own
 // entry: what one does with the item (its deadline) is not the other's. Orders of the first two calls and
